@@ -106,6 +106,24 @@ Proof. intros n. apply forallb_imp. intros c H. apply name_c_facts in H. tauto. 
 Lemma names_attr : forall n, forallb name_c n = true -> forallb attr_name_c n = true.
 Proof. intros n. apply forallb_imp. intros c H. apply name_c_facts in H. tauto. Qed.
 
+Lemma aname_c_facts : forall c, aname_c c = true ->
+  h_ws c = false /\ attr_name_c c = true /\ (c =? 62) = false /\ (c =? 47) = false /\ (c =? 61) = false.
+Proof.
+  intros c H. unfold aname_c in H. apply orb_true_iff in H. destruct H as [H|H].
+  - apply name_c_facts in H. tauto.
+  - unfold uc_letter in H. unfold attr_name_c, h_ws. lia.
+Qed.
+
+Lemma aname_ok_inv : forall n, aname_ok n = true ->
+  exists c t, n = c :: t /\ lc_letter c = true /\ forallb aname_c (c :: t) = true.
+Proof.
+  intros [|c t] H; [discriminate|]. cbn [aname_ok] in H. apply andb_true_iff in H. destruct H as [Hc Ht].
+  exists c, t. repeat split; [exact Hc|]. cbn [forallb]. unfold aname_c at 1. rewrite (lc_letter_name_c c Hc), Ht. reflexivity.
+Qed.
+
+Lemma anames_attr : forall n, forallb aname_c n = true -> forallb attr_name_c n = true.
+Proof. intros n. apply forallb_imp. intros c H. apply aname_c_facts in H. tauto. Qed.
+
 (* what follows a run of white space inside a tag *)
 Lemma stops_ws_then : forall (f : Z -> bool) w c r,
   is_ws w = true -> (forall x, xws x = true -> f x = false) -> f c = false -> stops f (w ++ c :: r).
@@ -233,15 +251,15 @@ Lemma quote_of_cases : forall f, quote_of f = 34 \/ quote_of f = 39.
 Proof. intros f. unfold quote_of. destruct (af_dq f); [left|right]; reflexivity. Qed.
 
 Lemma parse_attr_render : forall name e1 e2 q v T,
-  name_ok name = true -> is_ws e1 = true -> is_ws e2 = true -> (q = 34 \/ q = 39) ->
-  parse_attr (name ++ e1 ++ [61] ++ e2 ++ [q] ++ esc_val q v ++ [q] ++ T) = Some (name, v, T).
+  aname_ok name = true -> is_ws e1 = true -> is_ws e2 = true -> (q = 34 \/ q = 39) ->
+  parse_attr (name ++ e1 ++ [61] ++ e2 ++ [q] ++ esc_val q v ++ [q] ++ T) = Some (lower name, v, T).
 Proof.
-  intros name e1 e2 q v T Hn H1 H2 Hq. destruct (name_ok_inv name Hn) as (c & t & En & Hc & Hnc).
+  intros name e1 e2 q v T Hn H1 H2 Hq. destruct (aname_ok_inv name Hn) as (c & t & En & Hc & Hnc).
   cbn [app]. unfold parse_attr.
   assert (S1 : stops attr_name_c (e1 ++ 61 :: e2 ++ q :: esc_val q v ++ q :: T)).
   { apply stops_ws_then; [exact H1| |reflexivity]. intros x Hx. apply xws_facts in Hx. tauto. }
-  rewrite (take_while_stops attr_name_c name _ (names_attr _ (eq_ind_r (fun n => forallb name_c n = true) Hnc En)) S1).
-  rewrite (drop_while_stops attr_name_c name _ (names_attr _ (eq_ind_r (fun n => forallb name_c n = true) Hnc En)) S1).
+  rewrite (take_while_stops attr_name_c name _ (anames_attr _ (eq_ind_r (fun n => forallb aname_c n = true) Hnc En)) S1).
+  rewrite (drop_while_stops attr_name_c name _ (anames_attr _ (eq_ind_r (fun n => forallb aname_c n = true) Hnc En)) S1).
   subst name. cbv iota.
   rewrite (drop_while_stops h_ws e1 _ (is_ws_h_ws _ H1)) by reflexivity.
   change (61 =? 61) with true. cbv iota.
@@ -250,8 +268,7 @@ Proof.
   assert (Hqq : (q =? 34) || (q =? 39) = true) by lia. rewrite Hqq.
   rewrite (drop_to_app q _ T (esc_val_lacksq q v Hq)), (take_to_app q _ T (esc_val_lacksq q v Hq)).
   rewrite <- (app_nil_r (esc_val q v)), unescape_esc_val by (destruct Hq; [left|right; left]; assumption).
-  cbn [unescape]. rewrite app_nil_r.
-  rewrite (names_lower (c :: t) Hnc). reflexivity.
+  cbn [unescape]. rewrite app_nil_r. reflexivity.
 Qed.
 
 Definition tag_closer (sc : bool) : str := if sc then [47; 62] else [62].
@@ -273,7 +290,7 @@ Proof.
   - cbn [forallb] in Hl. apply andb_true_iff in Hl. destruct Hl as [Ha Hl].
     unfold rattr_ok, afmt_ok in Ha. repeat (apply andb_true_iff in Ha; destruct Ha as [Ha ?]).
     cbn [flat_map]. rewrite <- app_assoc, render_attr_shape. cbn [parse_attrs].
-    destruct (name_ok_inv _ H) as (c & t & En & Hc & Hnc).
+    destruct (aname_ok_inv _ H) as (c & t & En & Hc & Hnc).
     assert (Hcw : h_ws c = false) by (apply lc_letter_name_c, name_c_facts in Hc; tauto).
     rewrite (drop_while_stops h_ws (af_pre (ra_fmt a)) _ (is_ws_h_ws _ Ha)) by (rewrite En; exact Hcw).
     pose proof (parse_attr_render (ra_name a) (af_e1 (ra_fmt a)) (af_e2 (ra_fmt a)) (quote_of (ra_fmt a)) (ra_val a)
@@ -715,13 +732,13 @@ Lemma attr_get_lang : forall l1 lang l2, free_of_lang (l1 ++ l2) = true ->
   attr_get (lit "xml:lang") (plain (lang_attrs l1 lang l2)) = option_map snd lang.
 Proof.
   intros l1 lang l2 H. unfold free_of_lang in H. rewrite forallb_app in H. apply andb_true_iff in H. destruct H as [H1 H2].
-  assert (F : forall l, forallb (fun a => negb (str_eqb (ra_name a) (lit "xml:lang"))) l = true ->
+  assert (F : forall l, forallb (fun a => negb (str_eqb (lower (ra_name a)) (lit "xml:lang"))) l = true ->
                         attr_get (lit "xml:lang") (plain l) = None).
   { intros l. unfold attr_get.
     change (fun acc nv => if str_eqb (fst nv) (lit "xml:lang") then Some (snd nv) else acc) with (aget_step (lit "xml:lang")).
     induction l as [|a l IH]; intros Hl; [reflexivity|]. cbn [forallb] in Hl. apply andb_true_iff in Hl. destruct Hl as [Ha Hl].
     cbn [plain map fold_left]. unfold aget_step at 2. cbn [fst snd].
-    destruct (str_eqb (ra_name a) (lit "xml:lang")); [discriminate|]. exact (IH Hl). }
+    destruct (str_eqb (lower (ra_name a)) (lit "xml:lang")); [discriminate|]. exact (IH Hl). }
   unfold lang_attrs. rewrite !plain_app, !attr_get_app, (F l2 H2), (F l1 H1).
   destruct lang as [[f v]|]; [|reflexivity]. cbn [plain map]. unfold attr_get. cbn [fold_left fst snd ra_name ra_val].
   rewrite str_eqb_refl. reflexivity.
